@@ -999,6 +999,11 @@ rrul_fill_yly(echs_instant_t *restrict tgt, size_t nti, rrulsp_t rr)
 		}
 	}
 
+	if (UNLIKELY(!proto.y && !proto.m)) {
+		/* DTSTART isn't representable in the rule's scale */
+		goto fin;
+	}
+
 	/* check if we're ymd only */
 	ymdp = !bi63_has_bits_p(rr->wk) &&
 		!bi447_has_bits_p(&rr->dow) &&
